@@ -528,6 +528,8 @@ def argparse_run_checks(ir, ns, parser, by):
     """The registered options at work, for the parameters whose explicit default is data of the declared type (ir_data_default):
     default-accepted  the registered `type` applied to the default written as text gives the default back (a bool only has to
                       be accepted: bool('False') is True), and a registered `choices` contains it;
+    registered-default the registered default - read through the registered type when it is a str, as argparse does when the
+                      option is left out - is the default;
     parse-defaults    parse_args with (only) the required options given - each as the text of its own default, or, where the IR
                       gives none, some text its type accepts - does not exit or raise, and every such parameter that was not
                       given comes out with its default;
@@ -559,6 +561,16 @@ def argparse_run_checks(ir, ns, parser, by):
             elif a.choices is not None and got not in a.choices:
                 ok, what = False, "option --%s: the default %r is not among the registered choices %r" % (n, v, tuple(a.choices))
         out.append(("default-accepted", ok, what))
+        # what argparse itself does with a registered default that is a str: the registered type is applied to it at parse time
+        try:
+            reg = conv(a.default) if isinstance(a.default, str) else a.default
+            ok = plain(reg) == plain(v)
+            what = "" if ok else "option --%s: the registered default %r, read through the registered type %s as argparse does, is %r; " \
+                                 "the IR's default is %r" % (n, a.default, getattr(a.type, "__name__", a.type), reg, v)
+        except Exception as e:  # noqa
+            ok, what = False, "option --%s: the registered type %s rejects the registered default %r (%s); the IR's default is %r" % (
+                n, getattr(a.type, "__name__", a.type), a.default, type(e).__name__, v)
+        out.append(("registered-default", ok, what))
     if any(dv is not None and dv[0] != "value" for n, p, a, dv in opts):
         out.append(("parse-skipped", True, ""))
         return out
@@ -607,6 +619,12 @@ def gen_cases(rng, n):
             # what parse.function leaves for an unannotated, undocumented argument
             k0 = rng.choice(list(spec["params"]))
             spec["params"][k0] = {"doc": None, "typ": None, **({"default": 5} if rng.random() < 0.5 else {})}
+        # strata: an explicit default of the type of any member of a Union (also inside Optional); a back-tick quoted list /
+        # tuple / dict display of two or more elements of one or of several types, under a declared type that admits it
+        if rng.random() < 0.16:
+            fam_emitast.add_param(rng, spec, fam_emitast.union_default_param(rng, tags))
+        if rng.random() < 0.16:
+            fam_emitast.add_param(rng, spec, fam_emitast.literal_display_param(rng, tags))
         if kind == "function":
             o = {"function_name": "f", "function_type": rng.choice(["static", "self", "cls"]),
                  "word_wrap": rng.random() < 0.5, "emit_default_doc": rng.random() < 0.5,
@@ -629,14 +647,50 @@ def gen_cases(rng, n):
     return cases
 
 
-def evaluate(case):
-    """-> (list of (clause, ok, what), node or None, raised or None)"""
+def spec_request(case, ir, rec, node):
+    """the request that asks the Coq value-level spec (coq/model/C06Values.v, family run_c06values) about this point:
+    -> (guard?, does the really emitted tree carry exactly the table / attributes / well-formedness the spec computes from the IR?)"""
+    kind, o = case["kind"], case["opts"]
+    i = irwire.enc_ir(ir)
+    art = astwire.enc_stmt(node)
+    if kind == "argparse":
+        return dumps([Sym("c06v_argparse"), i, bool(o["word_wrap"]), art])
+    if kind == "class":
+        strings = set()
+        fam_emitast._strings_of_ir(ir, strings)
+        for snap in rec.irs:
+            fam_emitast._strings_of_ir(snap, strings)
+        return dumps([Sym("c06v_class"), i, fam_emitast.parse_table(strings), art])
+    return dumps([Sym("c06v_function"), i, opt(o["function_type"] or ir.get("type")), art])
+
+
+SPEC_WHAT = {"argparse": "inside guard_C06_argparse the add_argument calls of the emitted function (option string, type, choices, action, "
+                         "help, required, default) are not the table spec_argparse_table computes from the IR",
+             "class": "inside guard_C06_class the annotated assignments of the emitted class (name, annotation, value) are not "
+                      "spec_class_attrs of the IR",
+             "function": "inside guard_C06_function_types / _names the emitted function is not well-formed Python (wf_python)"}
+
+
+def spec_verdicts(reqs):
+    """[request or None] -> [None (not asked / not answered) | (in_guard, agrees)]"""
+    idx = [n for n, r in enumerate(reqs) if r is not None]
+    out = [None] * len(reqs)
+    for n, r in zip(idx, run_model([reqs[n] for n in idx])):
+        e = loads(r)
+        if isinstance(e, list) and len(e) == 2 and all(x in ("true", "false") for x in e):
+            out[n] = (e[0] == "true", e[1] == "true")
+    return out
+
+
+def evaluate(case, with_spec=False):
+    """-> (list of (clause, ok, what), node or None[, spec request or None])"""
     kind, o = case["kind"], case["opts"]
     ir = fam_emitast.materialise_ir(case["ir"])
     res, rec = fam_emitast.call_emitter(kind, copy.deepcopy(ir), o)
     node = rec.node
     if node is None:
-        return [("emit", False, "the emitter raised %s" % exc_kind(rec.exc))], None
+        r = [("emit", False, "the emitter raised %s" % exc_kind(rec.exc))], None
+        return r + (None,) if with_spec else r
     checks, src, ns = validity_checks(node, case.get("file"))
     if ns is not None:
         try:
@@ -648,14 +702,23 @@ def evaluate(case):
                 checks += argparse_checks(ir, o, ns, "set_cli_args")
         except Exception as e:  # noqa
             checks.append(("behaviour", False, "reading the executed artefact raised %s" % type(e).__name__))
-    return checks, node
+    if not with_spec:
+        return checks, node
+    try:
+        req = spec_request(case, ir, rec, node)
+    except Exception:  # noqa  IR or artefact outside the wire
+        req = None
+    return checks, node, req
 
 
 def check_case(case):
-    checks, _ = evaluate(case)
+    checks, _, req = evaluate(case, with_spec=True)
     for clause, ok, what in checks:
         if not ok:
             return False, "%s: %s" % (clause, what)
+    v = spec_verdicts([req])[0]
+    if v is not None and v[0] and not v[1]:
+        return False, "spec-table: " + SPEC_WHAT[case["kind"]]
     return True, ""
 
 
@@ -674,8 +737,20 @@ def oracle(rng, tier):
     failures, hist, seen = [], collections.Counter(), set()
     pending, reqs = [], []
     evaluations = 0
-    for c in cases:
-        checks, node = evaluate(c)
+    results = [evaluate(c, with_spec=True) for c in cases]
+    verdicts = spec_verdicts([r[2] for r in results])
+    for c, (checks, node, _), v in zip(cases, results, verdicts):
+        for t in c["tags"]:
+            if t.startswith("stratum:"):
+                hist[t] += 1
+        if v is None:
+            hist["spec-table:%s:not-asked" % c["kind"]] += 1
+        elif not v[0]:
+            hist["spec-table:%s:outside-guard" % c["kind"]] += 1
+        else:
+            # inside the Coq guard the theorem (C06_argparse_partial / C06_class_partial / C06_function_wf_types) speaks about
+            # the model; the really emitted tree must agree with the spec computed from the IR alone
+            checks = checks + [("spec-table", v[1], "" if v[1] else SPEC_WHAT[c["kind"]])]
         evaluations += len(checks)
         allok = True
         for clause, ok, what in checks:
